@@ -18,6 +18,9 @@ type Gen struct {
 	InvalidUTF8 bool
 	// PlainKeys restricts map keys to [A-Za-z0-9_] (used where the property is about something else).
 	PlainKeys bool
+	// ExtraKeys: with PlainKeys, one key in six is drawn from this list instead (keys that are plain for every wire
+	// format and for the slash-separated exclusion syntax but look like something else, e.g. "[0]")
+	ExtraKeys []string
 	// Plain restricts all leaves to benign values.
 	Plain bool
 	// NoPatchOperatorKeys avoids the map keys "$set" and "$delete" (the exclusion matcher cannot tell them from the
@@ -82,6 +85,9 @@ func (g *Gen) String(t *rapid.T, label string) string {
 }
 
 func (g *Gen) Key(t *rapid.T, label string) string {
+	if g.PlainKeys && len(g.ExtraKeys) > 0 && rapid.IntRange(0, 5).Draw(t, label+"_extra") == 0 {
+		return rapid.SampledFrom(g.ExtraKeys).Draw(t, label+"_xk")
+	}
 	if g.PlainKeys || g.Plain {
 		return rapid.StringMatching(`[a-zA-Z0-9_]{1,6}`).Draw(t, label)
 	}
